@@ -1,18 +1,21 @@
 use delaunay::core::delaunay_triangulation::DelaunayTriangulation;
+use delaunay::core::triangulation::TopologyGuarantee;
 use delaunay::core::vertex::Vertex;
-use delaunay::geometry::kernel::{FastKernel, RobustKernel};
+use delaunay::geometry::kernel::FastKernel;
 use delaunay::geometry::point::Point;
 use delaunay::geometry::traits::coordinate::Coordinate;
 fn main() {
-    let pts: Vec<[f64; 3]> = vec![[4.,-2.,6.],[8.,-4.,4.],[0.,-1.,6.],[6.,-3.,-5.],[-4.,-5.,-5.],[5.,-4.,8.],[-5.,4.,6.],[3.,3.,5.]];
+    let pts: Vec<[f64; 3]> = vec![[1.,3.,0.],[1.,6.,1.],[3.,2.,3.],[3.,5.,2.],[3.,6.,0.],[4.,1.,1.],[4.,2.,4.]];
     let vs: Vec<Vertex<f64, i32, 3>> = pts.iter().enumerate().map(|(i, p)| Vertex::new_with_uuid(Point::new(*p), uuid::Builder::from_random_bytes((1000u128 + i as u128).to_le_bytes()).into_uuid(), Some(i as i32))).collect();
-    let sig = |dt: &DelaunayTriangulation<FastKernel<f64>, i32, i32, 3>| { let mut c: Vec<Vec<i32>> = dt.cells().map(|(_, c)| { let mut v: Vec<i32> = c.vertices().iter().map(|k| dt.tds().get_vertex_by_key(*k).unwrap().data.unwrap()).collect(); v.sort(); v }).collect(); c.sort(); c };
-    let b = DelaunayTriangulation::<FastKernel<f64>, i32, i32, 3>::with_kernel(&FastKernel::new(), &vs).unwrap();
-    println!("batch  : {:?} valid={:?}", sig(&b), b.validate().is_ok());
-    let br = DelaunayTriangulation::<RobustKernel<f64>, i32, i32, 3>::with_kernel(&RobustKernel::new(), &vs).unwrap();
-    println!("batchR : cells={} valid={:?}", br.number_of_cells(), br.validate().is_ok());
-    let mut w = DelaunayTriangulation::<FastKernel<f64>, i32, i32, 3>::with_empty_kernel(FastKernel::new());
-    for v in &vs { let r = w.insert_with_statistics(*v); println!("  insert {:?}: {:?} cells={} viol={:?} is_valid={:?}", v.data, r.map(|(o, s)| (format!("{o:?}").chars().take(20).collect::<String>(), s.attempts)), w.number_of_cells(), delaunay::core::util::find_delaunay_violations(w.tds(), None).map(|v| v.len()), w.is_valid().is_ok()); }
-    println!("increm : {:?} valid={:?} viol={:?}", sig(&w), w.validate().map_err(|e| format!("{e}").chars().take(120).collect::<String>()), delaunay::core::util::find_delaunay_violations(w.tds(), None).map(|v| v.len()));
-    for (_, v) in w.vertices() { println!("   v{:?} {:?}", v.data, v.point().coords()); }
+    let dt = DelaunayTriangulation::<FastKernel<f64>, i32, i32, 3>::with_topology_guarantee(&FastKernel::new(), &vs, TopologyGuarantee::PLManifold).unwrap();
+    let keys: Vec<_> = dt.cells().map(|(k, _)| k).collect();
+    for ck in keys {
+        let mut t = dt.tds().clone();
+        t.remove_cells_by_keys(&[ck]);
+        let d2 = DelaunayTriangulation::<FastKernel<f64>, i32, i32, 3>::from_tds_with_topology_guarantee(t, FastKernel::new(), TopologyGuarantee::PLManifold);
+        let v = d2.validate();
+        let r = d2.validation_report();
+        let iv = d2.as_triangulation().is_valid();
+        println!("{ck:?}: tri.is_valid={} validate={} report_empty={}  {}", iv.is_ok(), v.is_ok(), r.is_ok(), v.err().map(|e| format!("{e}").chars().take(80).collect::<String>()).unwrap_or_default());
+    }
 }
